@@ -75,7 +75,7 @@ func init() {
 		return &fw.Prop{
 			ID:          "C09",
 			Level:       "exploration",
-			Rule:        "cases = 'perm' (face, 12-element state: all-zero, all p-1, single-hot edge values, all-edge, random) -> permutation output vs. the naive reference Poseidon (full MDS and full round constants in partial rounds, independent of the fast-round tables); 'hash' (face, input length 0..40 with canonical and non-canonical v+k*p elements) -> HashNoPad vs. reference over residues; 'ntom' (input length, output count 1..12) -> HashNToMNoPad; 'func' (state, hint site inside the permutation, alternative family) -> a substituted hint output must be refused by the site's own constraints (the permutation is a function); 'solver' -> the same on a really compiled R1CS permutation circuit with solver.OverrideHint, where any accepted output different from the reference output is a violation. Non-trivial = outputs compared / substitution differed from honest; distinct by case id.",
+			Rule:        "cases = 'perm' (face, 12-element state: all-zero, all p-1, single-hot edge values, all-edge, random) -> permutation output vs. the naive reference Poseidon (full MDS and full round constants in partial rounds, independent of the fast-round tables); 'hash' (face, input length 0..40 with canonical and non-canonical v+k*p elements) -> HashNoPad vs. reference over residues; 'ntom' (input length, output count 1..12) -> HashNToMNoPad; 'func' (state, hint site inside the permutation, alternative family) -> a substituted hint output must be refused by the site's own constraints (the permutation is a function); 'solver' -> the same on a really compiled R1CS permutation circuit with solver.OverrideHint, where any accepted output different from the reference output is a violation. Non-trivial = outputs compared / substitution differed from honest; distinct by case id. Also: the state as circuit constants, states whose elements cancel their first round constants, and results of earlier hash calls on one chip read after later calls ('retain').",
 			Assumptions: []string{"the naive reference is validated on the plonky2 zero-state vector and the public-input-hash vector at start"},
 			MinEvents:   100000,
 			Setup:       func(ctx *fw.Ctx) error { return refSelfTest(false) },
@@ -547,7 +547,7 @@ func c10Prop() *fw.Prop {
 	return &fw.Prop{
 		ID:    "C10",
 		Level: "exploration",
-		Rule:  "cases = 'perm' (4-element BN254 state with edge values 0, 1, r-1, 2^253 and random) vs. the PoseidonBN128 port of the Rust crate (constants parsed from the Rust file, validated on the four iden3 vectors); 'hash' (Goldilocks input length 0..30) -> HashNoPad, HashOrNoop (<=3 shortcut), vs. reference; 'twotoone'; 'tovec' (hash values 0, 1, 2^56-1, 2^56, 2^253, r-1, random) vs. 7-byte little-endian chunking; 'inject' pairs of canonical inputs of length <=3 differing in one limb/position/length must pack to different elements and distinct hashes to distinct chunk vectors; 'solver' ToVec on compiled R1CS/SCS with the bit-decomposition hint overridden by the bits of h+r (must be rejected). Non-trivial = outputs compared; distinct by case id.",
+		Rule:  "cases = 'perm' (4-element BN254 state with edge values 0, 1, r-1, 2^253 and random) vs. the PoseidonBN128 port of the Rust crate (constants parsed from the Rust file, validated on the four iden3 vectors); 'hash' (Goldilocks input length 0..30) -> HashNoPad, HashOrNoop (<=3 shortcut), vs. reference; 'twotoone'; 'tovec' (hash values 0, 1, 2^56-1, 2^56, 2^253, r-1, random) vs. 7-byte little-endian chunking; 'inject' pairs of canonical inputs of length <=3 differing in one limb/position/length must pack to different elements and distinct hashes to distinct chunk vectors; 'solver' ToVec on compiled R1CS/SCS with the bit-decomposition hint overridden by the bits of h+r (must be rejected). Non-trivial = outputs compared; distinct by case id. Also: the digest as a circuit constant in ToVec, and a compiled R1CS / SCS gadget hashing one variable in several positions, a computed first element, the same leaf twice, prefixes of one backing array before the whole array, chained two-to-one compression and the shortcut.",
 		Assumptions: []string{
 			"the reference PoseidonBN128 uses the Rust crate's constants (independent of the Go tables) and is validated on the crate's iden3 test vectors at start",
 		},
